@@ -1025,6 +1025,11 @@ func localConfigFunctionsOnlyRule(p *Prog, r *Report, id string) {
 	if n == 0 {
 		r.Bad("pkgload.(*PackageLoader).localConfig/table", p.PosStr(fi.Decl.Pos()), "store into the per-name settings table not found")
 	}
+	if why := localConfigAllFunctionsSSA(p); why != "" {
+		r.Bad("pkgload.(*PackageLoader).localConfig/every function", p.PosStr(fi.Decl.Pos()), why)
+	} else {
+		r.OK("pkgload.(*PackageLoader).localConfig/every function", p.PosStr(fi.Decl.Pos()), "recorded for every FuncDecl without receiver that has setting lines")
+	}
 }
 
 // ---------------------------------------------------------------------------
